@@ -808,6 +808,18 @@ func main() {
 					break
 				}
 				c := conf{W: []string{"1.2.3.4"}, JW: jw, JB: jb, User: au[0], Pass: au[1]}
+				if au[0] == "" {
+					// the same function lists behind a wildcard address list, for the two IPv6 remotes (one of them a
+					// zone-scoped link-local address, which net.ParseIP does not parse): canonical shape only
+					cw := conf{W: []string{"*"}, JW: jw, JB: jb}
+					for _, rm := range []int{3, 4} {
+						for _, sh := range allShapes {
+							if sh.Name == "body14" || strings.HasPrefix(sh.Name, "spell:\"Chain33.IsSync\"") {
+								run(kase{Exp: "E2", Conf: cw, Remote: rm, End: "jrpc", Shape: sh.Name, Auth: "none"})
+							}
+						}
+					}
+				}
 				for _, rm := range []int{0, 1} {
 					for _, sh := range allShapes {
 						avs := []string{"none"}
